@@ -299,8 +299,9 @@ func genPubStress(g *genCtx) {
 			pcl = 1 + t%2 // Publication.Close from 1-2 goroutines, racing with Subscriber.Close and Publish
 		}
 		// late: subscribers (with a filter) that register while the publishers run; zero: the first `zero` subscribers do not wait (timeout 0)
+		// pad: subscribers that reject everything (a long subscriber list widens every window inside Publish)
 		// selfclose: extra subscribers that nobody receives from, with a short timeout and an OnTimeout callback that closes them
-		g.op("stress pubs=%d subs=%d msgs=%d closers=%d seed=%d pclosers=%d late=%d zero=%d selfclose=%d", r.rangeIn(1, 4), r.rangeIn(1, 5), r.rangeIn(10, 120), r.intn(3), r.intn(1<<30), pcl, (t%4)/2*(1+t%3), (t%5)/3, (t%3)/2*(1+t%2))
+		g.op("stress pubs=%d subs=%d msgs=%d closers=%d seed=%d pclosers=%d late=%d zero=%d selfclose=%d pad=%d", r.rangeIn(1, 4), r.rangeIn(1, 5), r.rangeIn(10, 120), r.intn(3), r.intn(1<<30), pcl, (t%4)/2*(1+t%3), (t%5)/3, (t%3)/2*(1+t%2), (t%4)/3*300)
 	}
 }
 
@@ -318,7 +319,7 @@ func execPubStressCase(x *execCtx) {
 			fmt.Fprintf(real, "%s => bad-op\n", line)
 			continue
 		}
-		fmt.Fprintf(real, "%s => %s\n", line, pubStress(atoi(f["pubs"]), atoi(f["subs"]), atoi(f["msgs"]), atoi(f["closers"]), uint64(atoi(f["seed"])), atoiOr(f["pclosers"], 0), atoiOr(f["late"], 0), atoiOr(f["zero"], 0), atoiOr(f["selfclose"], 0)))
+		fmt.Fprintf(real, "%s => %s\n", line, pubStress(atoi(f["pubs"]), atoi(f["subs"]), atoi(f["msgs"]), atoi(f["closers"]), uint64(atoi(f["seed"])), atoiOr(f["pclosers"], 0), atoiOr(f["late"], 0), atoiOr(f["zero"], 0), atoiOr(f["selfclose"], 0), atoiOr(f["pad"], 0)))
 	}
 }
 
@@ -329,8 +330,11 @@ func atoiOr(s string, d int) int {
 	return atoi(s)
 }
 
-func pubStress(P, S, M, closers int, seed uint64, pclosers, late, zero, selfclose int) string {
+func pubStress(P, S, M, closers int, seed uint64, pclosers, late, zero, selfclose, pad int) string {
 	p := publisher.NewPublication[int]()
+	for i := 0; i < pad; i++ {
+		p.Subscribe(0, publisher.WithFilter(func(int) bool { return false }))
+	}
 	type subRec struct {
 		s       *publisher.Subscriber[int]
 		even    bool
@@ -432,6 +436,8 @@ func pubStress(P, S, M, closers int, seed uint64, pclosers, late, zero, selfclos
 			lateMu.Lock()
 			lateRecs[li] = sr
 			lateMu.Unlock()
+			// a message published after Subscribe has returned must reach the new subscriber (it keeps receiving)
+			p.Publish((P+1)*100000 + 2*(li+1))
 			wgLate.Done()
 			for v := range sr.s.Receive() {
 				sr.got = append(sr.got, v)
@@ -480,7 +486,7 @@ func pubStress(P, S, M, closers int, seed uint64, pclosers, late, zero, selfclos
 		for _, v := range sr.got {
 			seen[v]++
 			pi, m := v/100000, v%100000
-			if pi < 1 || pi > P || m < 1 || m > M {
+			if (pi < 1 || pi > P || m < 1 || m > M) && !(pi == P+1 && m >= 2 && m <= 2*late && m%2 == 0) {
 				foreign++
 			}
 			if sr.even && v%2 != 0 {
@@ -500,6 +506,23 @@ func pubStress(P, S, M, closers int, seed uint64, pclosers, late, zero, selfclos
 						missing++
 					}
 				}
+			}
+		}
+	}
+	if pclosers == 0 {
+		// nobody closed the publication before the end: every late subscriber has seen its own marker
+		for li, sr := range lateRecs {
+			if sr == nil {
+				continue
+			}
+			seen := false
+			for _, v := range sr.got {
+				if v == (P+1)*100000+2*(li+1) {
+					seen = true
+				}
+			}
+			if !seen {
+				missing++
 			}
 		}
 	}
